@@ -5,4 +5,5 @@ INVARIANT OddTailsOdd
 INVARIANT IdealConforms
 INVARIANT DecoyRefuted
 INVARIANT ListingRefuted
+INVARIANT EquivHeadersRefuted
 CHECK_DEADLOCK FALSE
